@@ -108,6 +108,11 @@ def run_case(R: Recorder, case: dict[str, Any], verbose: bool = False) -> None:
                 if outcome == "cleanupraise":
                     raise cleanup_obj from None
                 raise
+            if case.get("bystander"):
+                # some other callback of the application is already waiting for its turn when the function finishes (a consumer woken by
+                # the function's last step): it works synchronously for a while - the clock passes the deadline before the function's
+                # completion is delivered. The function HAS finished before its deadline
+                asyncio.get_running_loop().call_soon(clock.advance, case["bystander"])
             if outcome in ("value", "falsy-value", "ignore1", "cleanupraise"):
                 return value_obj
             if outcome in ("exception", "falsy-exception"):
@@ -239,7 +244,11 @@ def run_case(R: Recorder, case: dict[str, Any], verbose: bool = False) -> None:
         ok = res is not None and res[0] == exp[0] and res[1] is exp[1]
     R.monitor("outcome", ok, where={**where, "kind": "wrong-outcome", "expected": exp[1].__name__ if isinstance(exp[1], type) else exp[0]},
               detail=f"caller saw {res!r} at +{at}; table says {exp!r} at +{exp_at}; function={fn}", case=case)
-    R.monitor("outcome-time", at == exp_at, where={**where, "kind": "wrong-time"}, detail=f"caller resumed at +{at}, expected +{exp_at}; result {res!r}", case=case)
+    if case.get("bystander"):
+        R.count("function_finished_in_time_while_a_bystander_blocks_the_loop_past_the_deadline")
+        R.monitor("outcome-time", None)  # the loop was blocked: when the caller is resumed is not judged
+    else:
+        R.monitor("outcome-time", at == exp_at, where={**where, "kind": "wrong-time"}, detail=f"caller resumed at +{at}, expected +{exp_at}; result {res!r}", case=case)
     if first != "d" and d > 0 and fn["started"]:
         # the function was still running: it must have been asked to cancel at that instant
         R.monitor("function-cancelled", fn["cancel_seen_at"] == exp_at, where={**where, "kind": "function-not-cancelled"},
@@ -392,6 +401,8 @@ def cases(tier: str):  # noqa: ANN201
             yield {"d": d, "outcome": outcome, "T": T, "c": None, "scoped": False, "stale_cancel": True}
         if d > 0 and (c is None or c in (0.5, 1.0, 1.5)):
             yield {"d": d, "outcome": outcome, "T": T, "c": c, "scoped": False, "fn_stale": True}
+        if c is None and 0 < d < T and outcome in ("value", "exception", "base", "selfcancel", "falsy-value"):
+            yield {"d": d, "outcome": outcome, "T": T, "c": None, "scoped": False, "bystander": T - d + 0.5}
         # cancel requests a few loop iterations after the instant at which the function ends / the deadline fires
         if c is not None and (c == d or c == T):
             for k in range(1, 7):
@@ -412,6 +423,7 @@ def argname_wrappers() -> dict[str, tuple[Any, bool, bool]]:
 def run(R: Recorder, tier: str, seed: int, shard: int, nshards: int) -> None:
     if shard == 0:
         argnames.check(R, "arguments", argname_wrappers())
+        argnames.check_injecting(R, "arguments", argname_wrappers())
         stacking.check_transparent(R, "outcome", "timeout")
     R.flags["exhaustive"] = True
     R.flags["exhaustive_core"] = "full table durations x outcomes x timeouts x cancel instants x scoped (+ nested timeouts)"
@@ -421,6 +433,9 @@ def run(R: Recorder, tier: str, seed: int, shard: int, nshards: int) -> None:
 
 
 def replay(R: Recorder, case: dict[str, Any]) -> None:
+    if "injecting" in case:
+        argnames.check_injecting(R, "arguments", argname_wrappers())
+        return
     if "argnames" in case:
         argnames.check(R, "arguments", argname_wrappers(), only=case["argnames"])
         return
